@@ -2,17 +2,20 @@
 from . import c08
 
 PROP = "C09"
-THEOREMS = ["ArbF.next_owner_is_closest", "ArbF.owner_stays", "ArbF.no_starvation", "ArbF.waiting_distance_decreases", "Arb.next_is_closest", "Arb.served"]
-IMPORTS = ["SocVerif.Props.C08"]
+THEOREMS = ["ArbF.next_owner_is_closest", "ArbF.owner_stays", "ArbF.no_starvation", "ArbF.waiting_distance_decreases", "ArbF.bounded_wait", "ArbF.served_within_n_minus_one", "Arb.next_is_closest", "Arb.served"]
+IMPORTS = ["SocVerif.Props.C08", "SocVerif.Props.C09B"]
 
 
 def run(rep, tier):
     c08.THEOREMS_SAVE = c08.THEOREMS
+    c08.IMPORTS_SAVE = c08.IMPORTS
     try:
         c08.THEOREMS = THEOREMS
+        c08.IMPORTS = IMPORTS
         c08.run(rep, tier, prop=PROP, oracle={"C09"},
                 nontriv=lambda r: r["stats"]["free_with_waiter"] >= 3 and r["stats"]["n"] >= 3)
         rep.coverage["rule"] = c08.RULE + ("; C09: exact next-owner function checked on every transition; non-trivial = >=3 initiators and "
-                                           ">=3 releases with a waiting requester. Liveness itself is the Lean theorem no_starvation over infinite schedules")
+                                           ">=3 releases with a waiting requester. Liveness itself is the Lean theorem no_starvation over infinite schedules, and its finite form served_within_n_minus_one (served within N-1 releases of the bus)")
     finally:
         c08.THEOREMS = c08.THEOREMS_SAVE
+        c08.IMPORTS = c08.IMPORTS_SAVE
